@@ -26,7 +26,7 @@ FANOUT_CHUNK = 1
 RULE = (
     "programs {create from data frame with centres / with id column / with generated centres, from HDF5, from Parquet, from random generator; load a cache "
     "(metadata recomputed); build_trees binned+unbinned; HistData.from_catalog; autocorrelate; crosscorrelate; result I/O "
-    "(CorrFunc HDF5, CorrData text, Configuration YAML write+read); creation with id column, build_trees, histogram and crosscorrelate also with progress=True} x world size {2,3|4} x max_workers {None,1,2,size} x "
+    "(CorrFunc HDF5, CorrData text, Configuration YAML write+read); creation with id column, build_trees, histogram and crosscorrelate also with progress=True; four programs on multi-node layouts {AB, AAB, ABA, ABB, ABAB, AABB} (processor names differ)} x world size {2,3|4} x max_workers {None,1,2,size} x "
     "send completion {eager, rendezvous | size-threshold} x collectives {full, minimal synchronisation}; every "
     "wildcard-receive matching the standard permits is enumerated (POE: deterministic matches first, then branch over "
     "all matchable senders); creation on 4 ranks: complete up to 3 deviations from the default matching. Oracle: no deadlock, no rank raises, no message left unreceived, every pair-count / "
@@ -74,6 +74,16 @@ def cases(tier, seed):
             if size == 4 and prog.startswith("create"):
                 # three senders x three chunks racing for the writer: the matchings grow factorially; explored
                 # completely up to 3 deviations from the default matching (iterative context bounding)
+                case["bound"] = 3
+            out.append(case)
+    # ranks spread over several nodes (different processor names): only the ranks on the root's node take part
+    for prog, nodes in itertools.product(("create-centres", "create-ids", "hist", "cross"), ("AB", "AAB", "ABA", "ABB", "ABAB", "AABB")):
+        if tier == "quick" and len(nodes) == 4 and prog != "create-ids":
+            continue
+        for sm in ("eager", "rendezvous"):
+            case = dict(program=prog, size=len(nodes), max_workers=None, send_mode=sm, coll_mode="full", nodes=nodes,
+                        baseline=base[prog], fixture=os.path.join(root, "fixture"))
+            if len(nodes) == 4 and prog.startswith("create"):
                 case["bound"] = 3
             out.append(case)
     return out
@@ -190,7 +200,8 @@ def run_case(case):
             shutil.copytree(case["fixture"], os.path.join(d, "fixture"))
             os.makedirs(os.path.join(d, "out"))
             calls.clear()
-            res = MPI.run_world(size, lambda r: mpi_bodies.program(prog, d, mw), send_mode=sm, coll_mode=cm, prefix=prefix)
+            res = MPI.run_world(size, lambda r: mpi_bodies.program(prog, d, mw), send_mode=sm, coll_mode=cm, prefix=prefix,
+                                nodes=case.get("nodes"))
             shutil.rmtree(d, ignore_errors=True)
             counters["executions"] += 1
             counters["transitions"] += res["nops"]
@@ -212,6 +223,12 @@ def run_case(case):
                 names = sorted({type(e[0]).__name__ + ": " + str(e[0])[:80] for e in errs})
                 if (prog.startswith("create") and mw == 1 and len(errs) == size
                         and all("at least two workers" in str(e[0]) for e in errs)):
+                    counters["refused"] += 1
+                    continue
+                nodes = case.get("nodes")
+                if (prog.startswith("create") and nodes and nodes.count(nodes[0]) < 2 and len(errs) == size):
+                    # a single rank on the root's node: creation (which needs two ranks there) is refused on all
+                    # ranks - whatever the exception, nothing hangs and nothing wrong is returned
                     counters["refused"] += 1
                     continue
                 verdict = ("rank-raises:" + type(errs[0][0]).__name__, f"{len(errs)} rank(s) raised {names}")
